@@ -34,7 +34,9 @@ DOM = {'color': 'color', 'top': 'top', 'margin-top': 'marginTop', 'overflow-x': 
 # (source spelling, canonical serialisation)
 VALUES = [('red', 'red'), ('blue', 'blue'), (' 1px  2px ', '1px 2px'), ('1PX', '1px'), ('a , b', 'a, b'),
           ('+.50em', '+0.5em'), ("'a'", '"a"'), ('url( x )', 'url(x)'), ('1px/2px', '1px/2px'),
-          ('0px', '0'), ('-0.50', '-0.5'), ('1px solid red', '1px solid red'), ('inherit', 'inherit'), ('3', '3')]
+          ('0px', '0'), ('-0.50', '-0.5'), ('1px solid red', '1px solid red'), ('inherit', 'inherit'), ('3', '3'),
+          # characters Python calls white space but CSS calls name characters
+          ('\xa0red', '\xa0red'), ('red\xa0', 'red\xa0'), ('x\u3000', 'x\u3000'), (' \u2003y ', '\u2003y')]
 
 
 def api_spellings(name):
@@ -500,3 +502,8 @@ def check_escaped(case, ctx):
 
 
 SUBS.append(Sub('escaped', check_escaped, enumerate=escaped_cases, shards_quick=1, shards_thorough=1))
+
+
+from vlib.reported import reported_sub  # noqa: E402
+
+SUBS.append(reported_sub('C10'))
